@@ -63,6 +63,17 @@ pub fn check_short(en: &EnumEntry, bytes: &[u8]) -> CheckResult {
 }
 
 pub fn replay(check: &str, i: &Value) -> Option<CheckResult> {
+    if check == "transport" {
+        let ens = enums();
+        let en = ens.iter().find(|e| Some(e.name) == i.get("enum").and_then(|x| x.as_str()))?;
+        let stream = unhex(i.get("stream")?.as_str()?);
+        // expectation recomputed: first packet rejected, second parsed on its own, then end of stream
+        let n = 5 + u16::from_le_bytes([stream[3], stream[4]]) as usize;
+        let want = (en.parse)(&stream[n..]).ok()?;
+        let got = guard(|| (en.read)(stream.clone(), 3));
+        let ok = matches!(&got, Ok(r) if r.len() == 3 && r[0].is_err() && r[1].as_ref().ok() == Some(&want) && r[2].is_err());
+        return Some(if ok { Ok(()) } else { Err(Violation::new("transport", format!("C15 enum={} kind=rejected-packet-body-read-as-packets", en.name), format!("three reads gave {:?}; expected [Err, Ok({}), Err]", got, clip(&want, 120)), i.clone())) });
+    }
     if check == "via-sequence" {
         return Some(crate::props::c05::check_seq(&crate::props::c05::Model::new(), &serde_json::from_value(i.clone()).ok()?).map_err(|mut v| {
             v.check = "via-sequence".into();
@@ -203,10 +214,57 @@ pub fn run(tier: Tier) -> i32 {
         });
         stats.merge(s);
     }
+    // through the transport: a packet outside the reply set, in extended length form, whose data block starts with the image
+    // of an owned packet, followed by a real owned packet: error, then that packet, then end of stream - the rejected
+    // packet's data block is never read as packets
+    let s = ctx.shards("transport", ens.len() as u64, |i, _seed, st| {
+        let en = &ens[i as usize];
+        let owned = &table.iter().find(|(e, _)| *e == en.name).expect("enum in table").1;
+        let foreign: (u8, u8) = [(0x06u8, 0xd1u8), (0x0e, 0x0b), (0x06, 0xd3), (0x04, 0x01)].into_iter().find(|f| !owned.iter().any(|(c, k, _, _)| (*c, *k) == *f)).unwrap();
+        let eseed = ctx.seed_for("transport-bodies", i);
+        let mut images: Vec<(String, Vec<u8>)> = vec![];
+        for (c, k, v, ty) in owned.iter() {
+            let l = &t[*ty];
+            for val in ctx.sample_values(eseed ^ fnv_str(ty), 3, &strategy_for(&t, ty, GenCfg::small())) {
+                if is_canonical(&t, l, &val) {
+                    let b = apdu_of(*c, *k, &enc_struct_body(&t, l, &val).unwrap());
+                    if let Ok(d) = guard(|| (en.parse)(&b)) {
+                        if let Ok(d) = d {
+                            images.push((d, b));
+                        }
+                    }
+                    let _ = v;
+                }
+            }
+        }
+        for (a, (_, img_a)) in images.iter().enumerate() {
+            for (want, real) in images.iter().skip(a + 1).chain(images.iter().take(a)).take(3) {
+                for pad in [255usize, 300, 1000] {
+                    let mut body = img_a.clone();
+                    body.resize(body.len().max(pad), 0);
+                    let mut stream = vec![foreign.0, foreign.1, 0xff, body.len() as u8, (body.len() >> 8) as u8];
+                    stream.extend(&body);
+                    stream.extend(real);
+                    let input = json!({"enum": en.name, "stream": hex(&stream)});
+                    let got = guard(|| (en.read)(stream.clone(), 3));
+                    st.case(true, fnv(&stream) ^ fnv_str(en.name));
+                    st.class("transport:foreign-extended-packet-then-owned-packet");
+                    let ok = match &got {
+                        Ok(r) => r.len() == 3 && r[0].is_err() && r[1].as_ref().ok() == Some(want) && r[2].is_err(),
+                        Err(_) => false,
+                    };
+                    if !ok {
+                        ctx.record(Err(Violation::new("transport", format!("C15 enum={} kind=rejected-packet-body-read-as-packets", en.name), format!("stream: a {:02x} {:02x} packet ({} data bytes beginning with the image of an owned packet), then {}\n  three reads gave {:?}\n  expected [Err, Ok({}), Err]", foreign.0, foreign.1, body.len(), clip(&hex(real), 80), got.as_ref().map(|r| r.iter().map(|x| x.as_ref().map(|s| clip(s, 80)).map_err(|e| clip(e, 60))).collect::<Vec<_>>()), clip(want, 120)), input)), st);
+                    }
+                }
+            }
+        }
+    });
+    stats.merge(s);
     stats.exhaustive_parts = vec!["17 reply parsers x all 65 536 (class, instr) pairs, each with every prepared body".into()];
     ctx.finish(
         stats,
-        "enumeration: every reply enum x every (class, instr) pair x bodies {empty, canonical bodies of each variant's packet type, random}, owned pairs also with further bytes behind the packet in the same buffer (a following packet, field-like bytes, random); plus inputs shorter than two bytes; plus, through the real sequences, every form of the terminal's acknowledgement (empty / with a reply-like data block / extended length) in front of each reply of the reply set (trace oracle of C05). Oracle from an independent enum -> control field table: foreign pair => Err; owned pair => identical to the variant's packet type decoding the same bytes. non-trivial = pair owned by the enum or sharing class or instr with an owned pair; distinct by (enum, pair, body) by construction",
+        "enumeration: every reply enum x every (class, instr) pair x bodies {empty, canonical bodies of each variant's packet type, random}, owned pairs also with further bytes behind the packet in the same buffer (a following packet, field-like bytes, random); plus inputs shorter than two bytes; plus, through PacketTransport::read_packet::<enum>, a foreign extended-length packet whose data block begins with the image of an owned packet, followed by an owned packet (error, that packet, end of stream); plus, through the real sequences, every form of the terminal's acknowledgement (empty / with a reply-like data block / extended length) in front of each reply of the reply set (trace oracle of C05). Oracle from an independent enum -> control field table: foreign pair => Err; owned pair => identical to the variant's packet type decoding the same bytes. non-trivial = pair owned by the enum or sharing class or instr with an owned pair; distinct by (enum, pair, body) by construction",
         &["registry::enum_table() (DESIGN.md Appendix B) is the independent statement of each command's reply set"],
         true,
     )
